@@ -1,0 +1,5 @@
+//go:build verif
+
+package lexer
+
+func (l *Lexer) VerifReaderState() (pos, n, pending int) { return l.reader.VerifState() }
